@@ -42,6 +42,26 @@ FIXED = [
      '"a / /re/" minified to "a//re/" (line comment)'),
     ('FX-while-body', 'C02', '313deee',
      '"while(a);" with drop_semi minified to "while(a)"'),
+    ('FX-nobf-operands', 'C03', '84d41a5',
+     '"a && {}" / "a | {b: 1}" rejected as expression statements'),
+    ('FX-noin-family', 'C03', '380b4e4',
+     '"for (var v = a == b in c)" rejected, "for (a == b in c;;)" accepted, '
+     '"for (a ? b in c : d;;)" rejected'),
+    ('FX-regex-newline', 'C03', 'f8160ee',
+     'a regular expression literal could span a line terminator '
+     '("/ \\n /")'),
+    ('FX-regex-newline-c04', 'C04', 'f8160ee',
+     'a regular expression literal could span a line terminator'),
+    ('FX-keyword-property-c03', 'C03', '9979704',
+     '"a.if / b" rejected (keyword property name then slash)'),
+    ('FX-keyword-property-c04', 'C04', '9979704',
+     '"a.return \\n [0]" split by an inserted semicolon; "a.if \\n /r/" '
+     'accepted'),
+    ('FX-keyword-property-c05', 'C05', '9979704',
+     '"a.if / b" read the slash as a regex start; "a.if (b) / c" as a '
+     'header'),
+    ('FX-keyword-property-c01', 'C01', '9979704',
+     'pretty output "({\\n  p: a.return\\n})" rejected on re-parse'),
 ]
 
 FINDINGS = []
@@ -112,13 +132,6 @@ known('K-C03-postfix-after-newline', 'C03',
       '`a++; b`.', {'text': 'a \n ++ b'})
 rule('K-C03-postfix-after-newline', r'^C03\|.*(\+\+|--) ')
 rule('K-C03-postfix-after-newline', r'^C03\|tree-differs\|.*PostfixExpr')
-known('K-C03-keyword-property-then-slash', 'C03',
-      'a keyword used as property name makes the next `/` a regex',
-      'the division/regex decision looks at the token type of the previous '
-      'token; for `a.if / b` that is IF, not an identifier.',
-      {'text': 'a . if / b ;'})
-rule('K-C03-keyword-property-then-slash',
-     r'^C03\|impl-rejects\|Error-parsing-regular-expression\|')
 known('K-C03-funcdecl-then-expression', 'C03',
       'a function declaration followed by an operator is read as a function '
       'expression statement',
@@ -166,11 +179,6 @@ known('K-C04-regex-after-inserted-semicolon', 'C04',
       {'text': 'var v \n/r/ ; '})
 rule('K-C04-regex-after-inserted-semicolon', r'^C04\|impl-rejects\|.*'
      r'next=SLASH\|expected=insert')
-known('K-C04-keyword-property-then-slash', 'C04',
-      'keyword property name followed by a line break and a slash',
-      'same root cause as K-C03-keyword-property-then-slash',
-      {'text': 'a . if \n/r/ ; '})
-rule('K-C04-keyword-property-then-slash', r'^C04\|impl-accepts\|.*prev=OP')
 
 # ---------------------------------------------------------------- C08
 known('K-C08-layout-fragments-without-source', 'C08',
@@ -228,11 +236,6 @@ known('K-C05-incdec-before-regex', 'C05',
 rule('K-C05-incdec-before-regex', r'^C05\|[^|]*\|before=(\+\+|--)\|')
 rule('K-C05-incdec-before-regex', r'^C05\|impl-rejects\|before=ID\|'
      r'gap=LINE-COMMENT\|tail=div\|expected=div\|')
-known('K-C05-keyword-property', 'C05',
-      'a keyword used as property name is followed by a regex, not a '
-      'division', 'same root cause as K-C03-keyword-property-then-slash',
-      {'text': 'a . if / b'})
-rule('K-C05-keyword-property', r'^C05\|[^|]*\|before=PROPNAME\|')
 known('K-C05-after-closing-brace', 'C05',
       'a regex after a closing brace is only recognised for a plain `/` '
       'directly re-lexed by the parser',
